@@ -105,6 +105,13 @@ type world struct {
 	lay   layout
 	displ bool
 	ovf   bool
+	// ids that a writer (add / update / remove) was sent to while their record sat behind an empty slot of its
+	// probe sequence: the only situation in which the first-hole write probe misbehaves
+	tainted map[id]bool
+	// set by the first failure that carries the footprint of the write-probe defect: what the map oracle reports
+	// later in the same case (stale copies that outlive their footprint) is downstream of it
+	contaminated bool
+	lastTouched  []id
 }
 
 func (w *world) note(i id) {
@@ -349,20 +356,53 @@ func (w *world) holeFootprint(l layout, i id) bool {
 	return count > 1 || (count == 1 && firstEmpty >= 0 && firstEmpty < last)
 }
 
+// fail records an oracle failure about id i. It gets the signature of the known write-probe defect only when the
+// failure is one the map oracle can attribute to it (a second record, a record or lookup result for an absent id, an
+// older value, a lost id, a refused removal / accepted duplicate add), the id is one of ours, a writer was sent to it (or
+// to an id of the same call) while that id's record sat behind a hole, and the segment files still show the footprint
+// (that id twice, or behind a hole); or it comes later in a case in which that already happened (stale copies outlive
+// their footprint). Anything else keeps its own signature.
 func (w *world) fail(i id, generic, what, detail string) {
 	sig := generic
-	if w.holeFootprint(w.lay, i) {
-		sig = "C21/write-probe-stops-at-hole"
+	eligible := false
+	switch generic {
+	case "C21/duplicate-record", "C21/absent-id-found", "C21/stale-value", "C21/layout-extra-record", "C21/op-result",
+		"C21/lost-id", "C21/layout-missing-record":
+		eligible = w.seen[i]
+	}
+	if eligible {
+		// the id itself, and — when it was part of the last call — the ids that call carried with it (a batch resolves
+		// every location before it writes: two ids sent to one hole overwrite each other)
+		cands := []id{i}
+		for _, t := range w.lastTouched {
+			if t == i {
+				cands = append(cands, w.lastTouched...)
+				break
+			}
+		}
+		for _, c := range cands {
+			if w.tainted[c] && w.holeFootprint(w.lay, c) {
+				w.contaminated = true
+			}
+		}
+		if w.contaminated {
+			sig = "C21/write-probe-stops-at-hole"
+		}
+	}
+	if sig == generic && os.Getenv("C21_DEBUG") != "" {
+		fmt.Fprintf(os.Stderr, "generic failure case %d: %s %s %s tainted=%v footprint=%v\n  layout %s\n", w.s.CaseNo, generic, what, detail, w.tainted[i], w.holeFootprint(w.lay, i), w.lay.String())
 	}
 	w.s.Fail(sig, what, detail)
 }
 
 // after: result check, cold lookups of every id used so far, raw layout — each an op line of its own.
 func (w *world) after(name, got, want string, touched []id) {
+	w.lastTouched = touched
 	// state of the touched ids before this op's layout is read (for the histogram): was there a hole before them?
 	for _, i := range touched {
 		if w.holeFootprint(w.lay, i) {
 			w.s.Hit(name + "_of_id_behind_a_hole")
+			w.tainted[i] = true
 		}
 	}
 	lay, err := w.decode(false)
@@ -479,7 +519,7 @@ func runCase(ctx context.Context, s *hx.Session, p *hx.Prng, pr profile, script 
 	reg := fs.NewRegistry(true, pr.md, rt, l2)
 	defer reg.Close()
 	w := &world{ctx: ctx, s: s, p: p, dir: dir, md: pr.md, hp: fs.VerifHandlesPerBlock(), bsz: fs.VerifBlockSize(), reg: reg,
-		ref: map[id]sop.Handle{}, seen: map[id]bool{}, lay: layout{cells: map[cellPos]id{}}}
+		ref: map[id]sop.Handle{}, seen: map[id]bool{}, tainted: map[id]bool{}, lay: layout{cells: map[cellPos]id{}}}
 	w.cold = func() fs.Registry { return fs.NewRegistry(false, pr.md, rt, cache.NewL2InMemoryCache()) }
 	s.BeginCase(fmt.Sprintf("md %d", pr.md))
 	s.Hit("case_" + pr.name)
@@ -636,6 +676,16 @@ func witness(slot int, hiK uint64) func(w *world) {
 	}
 }
 
+// exactly Sop.C21.witness (md 1, X = 0:5, Y = 0:71), followed by the lookup of Y that `after` issues anyway
+func witnessExact(w *world) {
+	x, y := id{0, 5}, id{0, 71}
+	w.opAdd([]sop.Handle{w.handle(x)})
+	w.opAdd([]sop.Handle{w.handle(y)})
+	w.opRemove([]id{x})
+	w.opSet([]sop.Handle{w.handle(y)}, true)
+	w.opRemove([]id{y})
+}
+
 // fill one block beyond its 66 slots, punch holes, update and remove displaced entries, refill
 func fullBlock(extra int) func(w *world) {
 	return func(w *world) {
@@ -683,6 +733,9 @@ func driveC21(o hx.RunOpts) error {
 	ctx := context.Background()
 
 	// directed corpus first
+	if err := runCase(ctx, s, p.Fork(), profile{name: "witness", md: 1}, witnessExact); err != nil {
+		return err
+	}
 	for _, md := range []int{1, 2, 3, 250} {
 		for _, slot := range []int{5, 0, 65} {
 			if err := runCase(ctx, s, p.Fork(), profile{name: "witness", md: md}, witness(slot, uint64(md-1))); err != nil {
@@ -697,7 +750,7 @@ func driveC21(o hx.RunOpts) error {
 	}
 
 	mods := []int{1, 2, 3, 250}
-	n := o.N(400, 5000)
+	n := o.N(400, 4000)
 	for k := 0; k < n; k++ {
 		q := p.Fork()
 		md := mods[q.Intn(len(mods))]
